@@ -468,6 +468,57 @@ fn panic_inventory(outdir: &str) {
     std::fs::write(format!("{}/panic_sites.json", outdir), serde_json::to_string_pretty(&js).unwrap()).unwrap();
 }
 
+// ---------------------------------------------------------------------------------------------------------------
+// E7: fingerprints of every non-test item of the crate (functions per impl, constants, macros, type definitions).
+// Keyed structurally (file, enclosing path, kind, name); value = FNV-1a of the whitespace-free token stream (comments and
+// formatting do not count). Used by check.py to see WHICH items changed since the reviewed snapshot, so that the search
+// budget of the affected properties is enlarged; a changed fingerprint alone is never an alarm.
+struct Prints { file: String, path: Vec<String>, out: Vec<(String, String)> }
+fn fnv(s: &str) -> String { let mut h: u64 = 0xcbf29ce484222325; for b in s.bytes() { h ^= b as u64; h = h.wrapping_mul(0x100000001b3); } format!("{:016x}", h) }
+/// drop `#[doc = "…"]` attributes (doc comments) from a whitespace-free token string
+fn strip_docs(s: &str) -> String {
+    let b = s.as_bytes(); let mut out = String::with_capacity(s.len()); let mut i = 0;
+    while i < b.len() {
+        if s[i..].starts_with("#[doc=\"") || s[i..].starts_with("#![doc=\"") {
+            let mut j = i + s[i..].find('"').unwrap() + 1;
+            while j < b.len() && b[j] != b'"' { if b[j] == b'\\' { j += 1; } j += 1; }
+            if j + 1 < b.len() && b[j + 1] == b']' { i = j + 2; continue; }
+        }
+        let ch = s[i..].chars().next().unwrap(); out.push(ch); i += ch.len_utf8();
+    }
+    out
+}
+impl Prints { fn add<T: ToTokens>(&mut self, kind: &str, name: String, t: &T) { let k = format!("{}::{}::{} {}", self.file, self.path.join("::"), kind, name); self.out.push((k, fnv(&strip_docs(&toks(t))))); } }
+impl<'a> Visit<'a> for Prints {
+    fn visit_item_mod(&mut self, m: &'a ItemMod) { let n = m.ident.to_string(); let is_test = m.attrs.iter().any(|a| toks(a).contains("cfg(test)")); if !is_test && n != "tests" && n != "test" { self.path.push(n); visit::visit_item_mod(self, m); self.path.pop(); } }
+    fn visit_item_impl(&mut self, i: &'a ItemImpl) {
+        let ty = toks(&i.self_ty); let tr = i.trait_.as_ref().map(|(_, p, _)| toks(p)).unwrap_or_default();
+        self.path.push(if tr.is_empty() { ty } else { format!("<{} as {}>", ty, tr) });
+        for it in &i.items { match it { ImplItem::Fn(f) => self.add("fn", f.sig.ident.to_string(), f), ImplItem::Const(c) => self.add("const", c.ident.to_string(), c), other => self.add("item", fnv(&toks(other)), other) } }
+        self.path.pop();
+    }
+    fn visit_item_fn(&mut self, f: &'a ItemFn) { self.add("fn", f.sig.ident.to_string(), f); }
+    fn visit_item_const(&mut self, c: &'a ItemConst) { self.add("const", c.ident.to_string(), c); }
+    fn visit_item_static(&mut self, c: &'a ItemStatic) { self.add("static", c.ident.to_string(), c); }
+    fn visit_item_struct(&mut self, c: &'a ItemStruct) { self.add("struct", c.ident.to_string(), c); }
+    fn visit_item_enum(&mut self, c: &'a ItemEnum) { self.add("enum", c.ident.to_string(), c); }
+    fn visit_item_trait(&mut self, c: &'a ItemTrait) { self.add("trait", c.ident.to_string(), c); }
+    fn visit_item_macro(&mut self, m: &'a ItemMacro) { let n = m.ident.as_ref().map(|i| i.to_string()).unwrap_or_else(|| toks(&m.mac.path) + "!" + &m.mac.tokens.to_string().split(',').next().unwrap_or("").trim().to_string()); self.add("macro", n, m); }
+}
+fn rs_files(dir: &str, out: &mut Vec<String>) { if let Ok(rd) = std::fs::read_dir(format!("/repo/{}", dir)) { let mut es: Vec<_> = rd.flatten().collect(); es.sort_by_key(|e| e.file_name()); for e in es { let n = e.file_name().to_string_lossy().to_string(); let p = format!("{}/{}", dir, n); if e.path().is_dir() { rs_files(&p, out); } else if n.ends_with(".rs") { out.push(p); } } } }
+fn fingerprints(outdir: &str) {
+    let mut files = vec![]; rs_files("src", &mut files);
+    let mut map = serde_json::Map::new();
+    for f in files {
+        let Ok(text) = std::fs::read_to_string(format!("/repo/{}", f)) else { continue };
+        let Ok(file) = parse_file(&text) else { map.insert(format!("{}::<unparsable>", f), serde_json::json!(fnv(&text))); continue };
+        let mut p = Prints { file: f.clone(), path: vec![], out: vec![] }; p.visit_file(&file);
+        let mut seen = std::collections::HashMap::new();
+        for (k, v) in p.out { let c = seen.entry(k.clone()).or_insert(0usize); *c += 1; let kk = if *c > 1 { format!("{}#{}", k, c) } else { k }; map.insert(kk, serde_json::json!(v)); }
+    }
+    std::fs::write(format!("{}/fingerprints.json", outdir), serde_json::to_string_pretty(&serde_json::Value::Object(map)).unwrap()).unwrap();
+}
+
 /// the Lean definitions an extraction item feeds
 fn defs_of_item(item: &str) -> Vec<String> {
     let lower = |t: &str| t[..1].to_lowercase() + &t[1..];
@@ -564,6 +615,7 @@ pub fn run(outdir: &str, reviewed_dir: &str) -> Vec<String> {
     pending.push(("Amount".to_string(), s));
     panic_inventory(outdir);
     field_orders(outdir);
+    fingerprints(outdir);
     // ---- Sizes.lean: std::mem::size_of of the vector element types in THIS build of /repo
     {
         use monero::blockdata::transaction::{TxIn, TxOut};
